@@ -50,6 +50,10 @@ def oracle_equilibrium(R, tier, seed):
         kind = ["left", "full", "right"][it % 3]
         ny = int(rng.choice([2, 3, 4, 5])) if kind != "full" else int(rng.choice([3, 5]))
         mesh = gen.rand_mesh(rng, 2, ny, kind, offset=False)
+        if kind == "full" and it % 2 == 1:
+            # a full-span surface need not straddle y = 0 (tail off the centreline, translated wing): the clamped node is the
+            # MIDDLE node whatever its y (a seeded change that clamped the node nearest y = 0 was missed without this)
+            mesh = mesh + np.array([0.0, float(rng.uniform(3, 9)) * (1 if it % 4 == 1 else -1), 0.0])
         sym = kind != "full"
         mk = gen.tube_surface if model == "tube" else gen.wingbox_surface
         s = mk(mesh, symmetry=sym, struct_weight_relief=False, distributed_fuel_weight=False)
